@@ -48,6 +48,11 @@ pub struct TlsCase {
     pub io_faulty: bool,
     /// go through the whole client stack (Client builder) instead of the bare transport
     pub via_client: bool,
+    /// pool history: the same pooled client first completes a plain `http://host:port` request to
+    /// the same host and port, so that an idle clear-text connection to that endpoint exists when
+    /// the https / wss request is issued
+    #[serde(default)]
+    pub prior_plain: bool,
 }
 
 pub struct TlsSim;
@@ -128,6 +133,120 @@ async fn raw_peer(mut s: SimStream, peer: Peer, cert: CertKind) {
     }
 }
 
+
+impl TlsSim {
+    /// The https / wss request is issued by a pooled client that holds an idle clear-text
+    /// connection to the same host and port. It must not travel on that connection.
+    fn execute_with_plain_history(&self, case: &TlsCase) -> Outcome {
+        let mut out = Outcome::default();
+        let rt = simrt::runtime();
+        let local = tokio::task::LocalSet::new();
+        let uri = uri_of(case);
+        let port = case.port.unwrap_or(8443);
+        let plain_uri = format!("http://{}:{}/r/2/p", case.host, port);
+        let result = std::panic::catch_unwind(std::panic::AssertUnwindSafe(|| {
+            local.block_on(&rt, async {
+                crate::net::reset_ops();
+                let pump = tokio::task::spawn_local(crate::net::time_pump());
+                let _g = super::AbortOnDrop(pump);
+                let net = Network::new(case.seed, NetPlan::plain());
+                let log = Arc::new(Mutex::new(HandlerLog::default()));
+                let mut plans = BTreeMap::new();
+                plans.insert(1u32, HandlerPlan { resp_len: 300, ..HandlerPlan::default() });
+                plans.insert(2u32, HandlerPlan { resp_len: 20, ..HandlerPlan::default() });
+                let plans = Arc::new(plans);
+                let key = |u: &str| origin_key(&u.parse::<http::Uri>().expect("uri"));
+                let (tls_origin, plain_origin) = (key(&uri), key(&plain_uri));
+                let mut servers = vec![];
+                for (o, tls) in [(plain_origin.clone(), false), (tls_origin.clone(), true)] {
+                    let acc = net.listen(&o);
+                    let cfg = if tls { Some(tlsfix::server_config(case.cert, &["http/1.1"])) } else { None };
+                    let ctx = HandlerCtx { net: net.clone(), log: log.clone(), plans: plans.clone(), origin: o.clone() };
+                    servers.push(tokio::task::spawn_local(async move {
+                        let _ = run_server(acc, ServerProto::Auto, cfg, ctx, SimExecutor::default(), None).await;
+                    }));
+                }
+                let cfg = super::ClientCfg { pool: true, idle_timeout_ms: None, max_idle: 32, continue_after_preemption: true, alpn_h2: false, timeout_ms: Some(20_000) };
+                let svc = super::build_client(&net, &cfg, true);
+                let send = |u: String, id: u32| {
+                    let svc = svc.clone();
+                    async move {
+                        let req = http::Request::builder().method("GET").uri(u.as_str()).header("x-req-id", id.to_string()).header("x-body-len", "0").body(ChunkBody::default()).unwrap();
+                        match svc.oneshot(req).await {
+                            Ok(resp) => {
+                                use http_body_util::BodyExt;
+                                let _ = resp.into_body().collect().await;
+                                Ok(())
+                            }
+                            Err(e) => Err(format!("{}", e)),
+                        }
+                    }
+                };
+                let first = tokio::time::timeout(Duration::from_secs(60), send(plain_uri.clone(), 2)).await.unwrap_or(Err("HANG".into()));
+                // let the finished connection travel back to the pool
+                tokio::time::sleep(Duration::from_millis(5)).await;
+                let second = tokio::time::timeout(Duration::from_secs(120), send(uri.clone(), 1)).await.unwrap_or(Err("HANG".into()));
+                for s in servers {
+                    s.abort();
+                }
+                let dialed_for_tls = net.inner.lock().conns.iter().filter(|c| c.origin == tls_origin).count();
+                let seen = log.lock().seen.clone();
+                (first, second, dialed_for_tls, seen, tls_origin, plain_origin)
+            })
+        }));
+        drop(local);
+        drop(rt);
+        let psig = |kind: &str| json!({"kind": kind, "host_form": if case.host.starts_with('[') { "ipv6" } else if is_ip_literal(&case.host) { "ipv4" } else { "name" }});
+        for p in simrt::take_panics() {
+            if p.in_harness() {
+                out.harness_error = Some(format!("harness panic {} at {}", p.message, p.location()));
+            } else {
+                out.violations.push(Violation::new("C12", "panic", json!({"location": p.location(), "host_form": psig("x")["host_form"]}), format!("{} after {} panicked: {} at {}", uri, plain_uri, p.message, p.location())));
+            }
+        }
+        let Ok((first, second, dialed_for_tls, seen, tls_origin, plain_origin)) = result else { return out };
+        out.count("probe.tls_request_with_idle_plaintext_connection_to_same_endpoint");
+        if first.is_err() {
+            // the history could not be set up (the plain request failed): nothing to judge
+            out.count("probe.plain_history_failed");
+        }
+        for s in seen.iter().filter(|s| s.id == 1) {
+            if origin_key(&s.origin.parse::<http::Uri>().expect("origin")) == plain_origin {
+                out.violations.push(Violation::new(
+                    "C12",
+                    "cleartext_on_tls_scheme",
+                    psig("reused_plaintext_connection"),
+                    format!("{} (issued after {} had left an idle connection in the pool) was handled by the clear-text server of {}: it travelled on the pooled plaintext connection", uri, plain_uri, plain_origin),
+                ));
+            }
+        }
+        if second.is_ok() && dialed_for_tls == 0 {
+            out.violations.push(Violation::new("C12", "cleartext_on_tls_scheme", psig("no_tls_connection_dialed"), format!("{} succeeded although no connection was dialed for {}", uri, tls_origin)));
+        }
+        let cert_ok = case.cert == CertKind::Good && host_in_good_cert(&case.host);
+        if second.is_ok() != cert_ok && first.is_ok() {
+            let rule = if second.is_ok() { "accepted_bad_peer" } else { "rejected_good_peer" };
+            out.violations.push(Violation::new("C12", rule, psig("verification"), format!("{} after a plain request to the same endpoint: result {:?}, certificate valid for the host: {}", uri, second.as_ref().err(), cert_ok)));
+        }
+        let mut sig = Digest::default();
+        sig.push_str("history");
+        sig.push_str(&case.scheme);
+        sig.push_str(&case.host);
+        sig.push(case.port.unwrap_or(0) as u64);
+        sig.push(case.cert as u64);
+        out.abstract_sig = sig.0;
+        let mut log = Digest::default();
+        log.push(first.is_ok() as u64);
+        log.push(second.is_ok() as u64);
+        log.push(dialed_for_tls as u64);
+        log.push(seen.len() as u64);
+        out.log_digest = log.0;
+        out.nontrivial = true;
+        out.faulty = case.cert != CertKind::Good;
+        out
+    }
+}
+
 impl Scenario for TlsSim {
     type Case = TlsCase;
 
@@ -177,6 +296,7 @@ impl Scenario for TlsSim {
             peer,
             io_faulty: r.chance(2, 3),
             via_client: r.chance(1, 3),
+            prior_plain: false,
         }
     }
 
@@ -188,6 +308,9 @@ impl Scenario for TlsSim {
         let local = tokio::task::LocalSet::new();
         let uri = uri_of(case);
         let use_tls = matches!(case.scheme.to_ascii_lowercase().as_str(), "https" | "wss");
+        if case.prior_plain && use_tls && case.port.is_some() {
+            return self.execute_with_plain_history(case);
+        }
         let result = std::panic::catch_unwind(std::panic::AssertUnwindSafe(|| {
             local.block_on(&rt, async {
                 crate::net::reset_ops();
@@ -449,6 +572,7 @@ fn enumerated() -> Vec<TlsCase> {
         peer,
         io_faulty: false,
         via_client: false,
+        prior_plain: false,
     };
     for scheme in SCHEMES {
         for host in HOSTS {
@@ -471,6 +595,20 @@ fn enumerated() -> Vec<TlsCase> {
         for stall in [false, true] {
             for host in ["sim.test", "127.0.0.1", "[::1]"] {
                 v.push(base("https", host, CertKind::Good, Peer::RawTruncated { at: k * 64, stall }));
+            }
+        }
+    }
+    // pool history: an idle clear-text connection to the same host and port exists
+    for scheme in ["https", "wss", "Wss"] {
+        for host in ["sim.test", "127.0.0.1", "[::1]", "other.example"] {
+            for port in [443u16, 8443, 80] {
+                for cert in [CertKind::Good, CertKind::Untrusted] {
+                    let mut c = base(scheme, host, cert, Peer::RealTls);
+                    c.port = Some(port);
+                    c.via_client = true;
+                    c.prior_plain = true;
+                    v.push(c);
+                }
             }
         }
     }
